@@ -61,7 +61,7 @@ def gen_history(rng, maxlen):
     n = rng.randint(1, maxlen)
     h = []
     for _ in range(n):
-        op = rng.choice(OPS + ["getTimes", "readMeta", "getLonLat", "calibrated"])
+        op = "save" if rng.random() < 0.12 else rng.choice([o for o in OPS if o != "save"] + ["getTimes", "readMeta", "getLonLat", "calibrated"])
         h.append(op)
         if rng.random() < 0.2:
             h.append(op)          # repetition
